@@ -3,6 +3,7 @@ import RedoModel.Props.C18c
 import RedoModel.Lemmas.LogRecRt
 import RedoModel.Props.C18e
 import RedoModel.Props.C18f
+import RedoModel.Props.C18g
 import RedoModel.Props.C18b
 import RedoModel.Generated
 /-!
